@@ -14,10 +14,10 @@ def R(cfg, lens, n, v, depth=0, **kw):
 # Script menus (see harness/src/world.rs)
 FIN_RESURRECT = "0,1,2,3"          # Nop, CloneCell0ToG, CloneCell1ToG, MoveCell0ToG
 FIN_RELEASE = "0,4,5,12"           # Nop, TakeCell0, TakeCell1, DropG
-FIN_ALLOC = "0,7,8"                # Nop, AllocIntoCell1, AllocCycleAndDrop
+FIN_ALLOC = "0,7,8,16,17"          # Nop, AllocIntoCell1, AllocCycleAndDrop, CollectThenAlloc, NewCyclicIntoCell1
 FIN_PHASE = "0,9,10,11,14,15"      # Nop, Collect, TryUnwrapG, FinalizeAgainG, CollectThenTryUnwrapG, CollectThenFinalizeAgainG
 FIN_MIX = "0,1,4,9"                # Nop, CloneCell0ToG, TakeCell0, Collect
-FIN_ALL = "0,1,2,3,4,5,7,8,9,10,11,12,14,15"
+FIN_ALL = "0,1,2,3,4,5,7,8,9,10,11,12,14,15,16,17"
 DROP_PHASE = "0,2,3,4,5,6"         # Nop, Collect, TryUnwrapG, FinalizeAgainG, CollectThenTryUnwrapG, CollectThenFinalizeAgainG
 ACT_ALL = "0,1,2,3,4,5,6"
 ACT_WEAK = "0,3,4"                 # Nop, UpgradeOwnerWeak, UpgradeNeighbourWeak
@@ -104,8 +104,8 @@ plan("C03", Q, [R("full-dbg", "core", 2, 3), R("min-dbg", "core", 2, 3), fin_q(F
 plan("C03", T, [R(c, "core", 2, 3) for c in ["full-dbg", "full-rel", "nofin-rel", "min-dbg", "min-rel", "pedantic-dbg"]] + [R("full-rel", "core", 3, 3, depth=14, max_seconds=MID), fin_t(FIN_RELEASE), fin_t(FIN_PHASE, depth=14), R("full-rel", "dtor", 2, 3, depth=14, drop_menu=DROP_PHASE, max_seconds=MID)] + weak_t + cyclic_t + cleaner_t)
 
 # ---- C04 Rc equivalence ---------------------------------------------------------------------------------------
-plan("C04", Q, core_q + seed_q[:1] + [fin_q(FIN_RELEASE), R("full-dbg", "weak", 2, 3, depth=12), R("full-dbg", "sat", 1, 2, depth=5, sat_k=1)])
-plan("C04", T, core_t + seed_t[:2] + [fin_t(FIN_RELEASE), fin_t(FIN_ALL, depth=11), R("full-rel", "sat", 2, 2, depth=7, sat_k=2, max_seconds=MID)] + weak_t[1:5] + cleaner_t)
+plan("C04", Q, core_q + seed_q[:1] + [fin_q(FIN_RELEASE, depth=12), fin_q(FIN_RESURRECT, depth=12), R("full-dbg", "weak", 2, 3, depth=12), R("full-dbg", "sat", 1, 2, depth=5, sat_k=1)])
+plan("C04", T, core_t + seed_t[:2] + [fin_t(FIN_RELEASE), fin_t(FIN_RESURRECT), fin_t(FIN_ALL, depth=11), R("full-rel", "sat", 2, 2, depth=7, sat_k=2, max_seconds=MID)] + weak_t[1:5] + cleaner_t)
 
 # ---- C05 finalizers ---------------------------------------------------------------------------------------------
 plan("C05", Q, [
@@ -213,8 +213,8 @@ plan("C13", Q, weak_q + cyclic_q + [R("min-dbg", "weak", 2, 3, depth=13)])
 plan("C13", T, weak_t + cyclic_t + [R("min-dbg", "weak", 2, 3, depth=16, max_seconds=MID)])
 
 # ---- C14 new_cyclic ---------------------------------------------------------------------------------------------------------
-plan("C14", Q, cyclic_q + [R("full-dbg", "cyclic", 3, 3, depth=6, faults=1), R("full-rel", "cyclic", 2, 3, depth=8)])
-plan("C14", T, cyclic_t + [R("full-rel", "cyclic", 3, 3, depth=8, faults=1, max_seconds=MID), R("nofin-rel", "cyclic", 3, 3, depth=8, faults=1, max_seconds=MID)])
+plan("C14", Q, cyclic_q + [R("full-dbg", "cyclic", 3, 3, depth=6, faults=1), R("full-rel", "cyclic", 2, 3, depth=8), R("full-dbg", "fin", 3, 3, depth=9, fin_menu="0,17")])
+plan("C14", T, cyclic_t + [R("full-rel", "fin", 3, 3, depth=12, fin_menu="0,1,17", max_seconds=MID), R("full-rel", "cyclic", 3, 3, depth=8, faults=1, max_seconds=MID), R("nofin-rel", "cyclic", 3, 3, depth=8, faults=1, max_seconds=MID)])
 
 # ---- C16 saturation -----------------------------------------------------------------------------------------------------------
 plan("C16", Q, [R("full-dbg", "sat", 1, 2, depth=6, sat_k=1), R("full-rel", "sat", 2, 2, depth=6, sat_k=1)])
